@@ -156,6 +156,10 @@ let () =
             | 3 ->
                 "REJECT 3 frames: expected " ^ String.concat " " (List.map show_sop (expected_frames plen peqb cfg tr))
                 ^ " observed " ^ String.concat " " (List.map show_sop (observed_frames tr))
+            | 6 ->
+                let bad = List.filter (fun f -> not (frame_to_ok peqb cfg f)) tr.tr_frames in
+                "REJECT 6 link destination of frames: " ^
+                String.concat " " (List.map (fun f -> Printf.sprintf "%s to %d" (show_sop { so_m = f.f_from; so_d = f.f_d }) (int_of_z f.f_to)) bad)
             | 4 -> "REJECT 4 the model predicts a panic (binding for a protocol that is not on the machine)"
             | n ->
                 Printf.sprintf "REJECT %d deliveries: predicted %s observed %s" n
